@@ -283,7 +283,9 @@ where
             let mut rp = rep.borrow_mut();
             rp.evaluations += 1;
             rp.merge_stats(&r.stats);
-            if r.nontrivial && r.failure.is_none() {
+            // a case that ends in a listed (open) finding was explored all the same
+            let known_only = r.failure.as_ref().map(|f| findings.matches_open(def.id, f).is_some()).unwrap_or(true);
+            if r.nontrivial && known_only {
                 let hsh = hash64(&serde_json::to_string(&case).unwrap_or_default());
                 if rp.nontrivial.insert(hsh) && rp.samples.len() < 2 {
                     rp.samples.push((def.render)(&case));
